@@ -1469,6 +1469,31 @@ func (a *zoneAnalyser) refineLenEq(z *zone, x *ssa.BinOp, op token.Token) bool {
 }
 
 // ZoneAnalyse runs the analysis on fn.
+// ZonePre holds, per function, lower bounds of length variables that every
+// call site establishes before the call (computed by the bounds rule for
+// unexported helpers whose references are all static calls): a helper extracted
+// from a parser keeps the facts its former surroundings had proved.
+var ZonePre = map[*ssa.Function]map[string]int64{}
+
+// PureAccessPath exposes the access-path rendering used for variable names.
+func PureAccessPath(v ssa.Value) (string, bool) { return pureAccessPath(v) }
+
+// LowerOfLenNamed: the proven lower bound of the named length variable before at (0 if none).
+func (r *ZoneResult) LowerOfLenNamed(at ssa.Instruction, name string) int64 {
+	z := r.before[at]
+	if z == nil {
+		return 1 << 40 // unreachable call site: imposes nothing
+	}
+	i, ok := r.zv.idx[name]
+	if !ok {
+		return 0
+	}
+	if l := z.get(0, i); l < zInf && -l > 0 {
+		return -l
+	}
+	return 0
+}
+
 func ZoneAnalyse(fn *ssa.Function) *ZoneResult {
 	zv := &zvars{fn: fn, idx: map[string]int{}, stored: map[string]bool{}, storeOf: map[string]*ssa.Store{}, nstores: map[string]int{}, rem: map[int][3]int64{}}
 	zv.id("ZERO")
@@ -1539,6 +1564,11 @@ func ZoneAnalyse(fn *ssa.Function) *ZoneResult {
 			if IntBits == 32 {
 				init.add(i, 0, 1<<31-1)
 			}
+		}
+	}
+	for name, lb := range ZonePre[fn] {
+		if i, ok := zv.idx[name]; ok && lb > 0 {
+			init.add(0, i, -lb)
 		}
 	}
 	for _, prm := range fn.Params {
